@@ -39,7 +39,7 @@ META = {
                           "2x2x60, 2x3x60 thorough (NCOEFF >= 5 with symbolic coefficients is not decided reliably); TMID, RPHASE (integer <= 1e12 and six decimals), F0, every coefficient "
                           "symbolic; then __call__ / f0 at a symbolic time against the tempo formula on the symbolic numbers",
                "array_times": "__call__ / f0 on a 1-D array of 2 or 3, or a 2 x 2 (3 x 1, 1 x 3) array of independent symbolic times (any order, same or different entries, inside or "
-                              "outside the spans); texts gap, odd (quick: n=2 all, n=3 odd-call and gap-f0), + timing n=2 and the other n=3 (thorough)",
+                              "outside the spans); texts gap, odd (quick: n=2 all, n=3 odd-call and gap-f0, 2x2 odd-call), + timing n=2, the other n=3, 2x2 gap-f0, 3x1 gap-call, 1x3 odd-f0 (thorough)",
                "evaluation": "three concrete polyco texts (the repository's timing.dat; a two-entry text with a gap; a generated text with "
                              "ncoeff not a multiple of 3, D exponents, signed coefficients), every entry, time symbolic over and beyond the spans"},
     "assumptions": ["exact real time and Horner arithmetic; coefficients are the doubles the real parser produced, compared with the exact "
